@@ -84,6 +84,19 @@ fn main() {
             }
             std::process::exit(1);
         }
+        "count" => {
+            // vmc count <max_stmts> <depth> <for> <bare> <block> <empty>
+            let a: Vec<usize> = args[2..].iter().map(|s| s.parse().unwrap()).collect();
+            let o = space::skel::SkelOpts {
+                max_stmts: a[0],
+                max_depth: a[1],
+                allow_for: a[2] != 0,
+                allow_bare: a[3] != 0,
+                allow_block: a[4] != 0,
+                allow_empty_body: a[5] != 0,
+            };
+            println!("{}", space::skel::count(o));
+        }
         "worker" => {
             if args.len() < 4 {
                 usage();
